@@ -98,7 +98,8 @@ def cases(spec, ctx):
                 "custom_quant_matrix": (r["qm"] is not None, [True, False])}
         vp0 = configs.build_vp(r)
         options = [("flag", k) for k in FLAG_KEYS] + [("index", k) for k in INDEX_KEYS] + [("base", "base_video_format")] \
-            + [("triv", k) for k in triv] + [("same", "slices_have_same_dimensions")] + [("vpval", k) for k in VALUE_KEYS]
+            + [("triv", k) for k in triv] + [("same", "slices_have_same_dimensions")] + [("vpval", k) for k in VALUE_KEYS] \
+            + [("etpval", "dwt_depth_ho"), ("etpval", "wavelet_index_ho")]
         ncells = rng.choice([0, 1, 1, 2, 2, 3, 3, 4, 5, 7])
         for kind, k in rng.sample(options, ncells):
             if kind == "flag":
@@ -123,6 +124,10 @@ def cases(spec, ctx):
                     table[k] = ["set", [v]]
                 else:
                     table[k] = ["set", [rng.choice([x for x in dom if x != v])]]
+            elif kind == "etpval":
+                # the value an asymmetric transform introduces: the column admits exactly the configured one or another
+                v = r["dh"] if k == "dwt_depth_ho" else r["wih"]
+                table[k] = ["set", [v]] if rng.random() < 0.6 else ["set", [(v + rng.choice([1, 2])) % (4 if k == "dwt_depth_ho" else 7)]]
             elif kind == "vpval":
                 # a value of the video format itself: the column admits exactly the configured value, or exactly
                 # another one (then only a base-format default or a preset can still express the format)
